@@ -34,6 +34,30 @@ def hook_exit_specs(tier, seed):
     return specs
 
 
+def fault_and_hook_specs(tier, seed, pos):
+    """A fault in the attempt AND a post-operation hook that ends badly (exit code, signal), with and without allow_failure."""
+    specs = []
+    base = standard_hooks()
+    cert = simple_cert("c1", ids=[{"dns": "a.example.org", "challenge": "http-01"}])
+    posts = [(k, n) for (k, n, m) in pos if m == "POST"]
+    picks = posts if tier == "thorough" else [posts[0], posts[len(posts) // 2], posts[-1]]
+    for (kind, nth) in picks:
+        for fault in ("acme:unauthorized:403", "drop_after", "err:nonjson:500"):
+            for code, extra in (("1", []), ("3", []), ("0", ["--signal"])):
+                for allow in (False, True):
+                    hooks = []
+                    for h in base:
+                        h = dict(h)
+                        if h["name"] == "post-operation":
+                            h = dict(h, args=["--hook", "post-operation", "--exit-seq", code] + extra + h["args"][4:], allow_failure=allow)
+                        hooks.append(h)
+                    sp = dict(tag="C07/fh%03d" % len(specs), certs=[cert], attempts=3, hooks=hooks,
+                              endpoints={"A": {"script": [{"kind": kind, "nth": nth, "fault": fault, "repeat": 1}, {"kind": kind, "nth": nth + 1, "fault": fault, "repeat": 40}]}},
+                              meta={"family": "fault and failing post-operation hook", "kind": kind, "fault": fault, "exit": code, "signal": bool(extra), "allow_failure": allow})
+                    specs.append(flowcheck.prepare(sp))
+    return specs
+
+
 def multi_cert_specs(tier, seed):
     """1..6 certificates sharing one account and one endpoint; any subset fails for ever (its authorizations are invalid)."""
     specs = []
@@ -65,6 +89,7 @@ def run(ctx):
     specs = flows.single_fault_specs("C07", cert, pos, ctx.tier, ctx.seed, attempts=2, quick_stride=7, pre_modes=("none",))
     specs += flows.multi_fault_specs("C07", cert, pos, 300 if ctx.tier == "thorough" else 30, ctx.seed + 1, attempts=3)
     specs += hook_exit_specs(ctx.tier, ctx.seed)
+    specs += fault_and_hook_specs(ctx.tier, ctx.seed, pos)
     specs += multi_cert_specs(ctx.tier, ctx.seed)
     results = flows.run_many(specs, workers=12)
     bad, stats, path = flowcheck.validate("C07/tv", results, flowcheck.L07)
